@@ -2,7 +2,7 @@
 import json
 import os
 
-from . import VERIF_DIR, REPO
+from . import VERIF_DIR, REPO, OUT_DIR
 
 SCHEMA = '/root/.vp/EVIDENCE.schema.json'
 
@@ -55,8 +55,8 @@ def write(prop, tier, seed, acc, mod, wall, nviol, known_seen, partial=False):
         pass
     except FileNotFoundError:
         pass
-    os.makedirs(os.path.join(VERIF_DIR, 'evidence'), exist_ok=True)
-    path = os.path.join(VERIF_DIR, 'evidence', prop + '.json')
+    os.makedirs(os.path.join(OUT_DIR, 'evidence'), exist_ok=True)
+    path = os.path.join(OUT_DIR, 'evidence', prop + '.json')
     tmp = path + '.tmp%d' % os.getpid()
     with open(tmp, 'w', encoding='utf-8') as f:
         json.dump(ev, f, indent=1, ensure_ascii=True, sort_keys=False)
